@@ -23,7 +23,7 @@ def schedules(pid, tier, seed):
             runs.append(g.history(i + 1, group=(i % 6 == 5), n=50 if i % 10 else 300))
     elif pid == 'C17':
         for i in range(48 if q else 300):
-            runs.append(g.burst(i + 1, 2 + (i * 5) % 63, ['ready', 'stalled', 'intermittent'][i % 3], group=(i % 4 == 3)))
+            runs.append(g.burst(i + 1, 2 + (i * 5) % 63, ['ready', 'stalled', 'intermittent', 'blocked'][i % 4], group=(i % 8 == 7)))
     return runs
 
 
